@@ -220,18 +220,23 @@ CHECKS["C13"] = {
                     "a forward step of the wall clock (host suspend) is used for long ageing; backward steps are not injected"],
 }
 CHECKS["C15"] = {
-    "specs": [("state", "schema", 1600, 60000)],
+    "specs": [("state", "schema", 1600, 60000), ("state", "config", 800, 30000)],
     "budget": (150, 1800),
     "rule": "same histories as C13 (eavesdropping on in 60 %), checked every 16 packets and at seeded points: (a) SCH_GLOBAL_SCHEMAS("
             "shrink(gwy.schema)) accepts; (b) a fresh Gateway(**that schema) on an empty input reports the same controllers, zones "
             "(class, sensor, actuators), DHW parts and appliance control; (c) graph walk: zone index < max_zones, zone_by_idx and "
             "parent<->child links mutual, a device an actuator of one zone only, a device's controller = its parent's controller; (d) a "
             "device whose parent differs from the one it had at the previous check, with no SystemSchemaInconsistent logged or raised "
-            "in between, is a violation. distinct/non-trivial as C13",
+            "in between, is a violation. Scenario config: a generated schema (1-3 controllers, 0-12 zones of any class with sensors of "
+            "every permitted type incl. the controller itself and a TRV that is also an actuator, 0-4 actuators, DHW parts, appliance "
+            "control, UFH controllers with circuit maps, orphans) that the validator accepts is loaded as configuration: the gateway must "
+            "start, report that topology, pass (a)-(c), and keep doing so while an unrelated history is received. distinct/non-trivial as C13",
     "real": REAL_STATE, "stub": STUB_RF,
     "assumptions": ["zones / controllers about which nothing is known are not compared in (b): shrink() removes them before the library "
                     "sees them again", "UFH circuit maps are outside the statement's list and are not compared",
-                    "the raw (un-shrunk) schema is only probed, not judged"],
+                    "the raw (un-shrunk) schema is only probed, not judged",
+                    "generated configurations place each device once and use system-level orphans of the only kind the library keeps there "
+                    "(02:); schemas the validator refuses are counted, not loaded"],
 }
 
 CHECKS["C16"] = {
@@ -377,7 +382,7 @@ MANIFEST_TEXT["C13"] = {
 MANIFEST_TEXT["C15"] = {
     "text": "Seeded search over the same histories: the library's validator, a reload into a fresh gateway and a graph walk are the oracles, "
             "evaluated every 16 packets.", "design_ref": "DESIGN.md 7/C15", "technique": _TECH,
-    "note": "Generated schemas as configuration are covered by feeding every reached schema back; see DESIGN for the part not built."}
+    "note": "Both quantifiers: schemas reached from histories (fed back into a fresh gateway) and generated schemas loaded as configuration."}
 MANIFEST_TEXT["C16"] = {
     "text": "Crash/restart is simulated: at seeded prefixes of a live history only get_state()'s output survives, a fresh gateway is started "
             "from it (optionally after downtime) and its snapshot, a second restore and a restore into the original are compared.",
